@@ -811,6 +811,27 @@ func (d *P4d) WaitReady(max time.Duration) bool {
 	return false
 }
 
+// WaitInitSince waits until a Write logged at index >= from has inserted interfaces entries
+// without error (the agent's start-up sequence has run against this switch).
+func (d *P4d) WaitInitSince(from int, max time.Duration) bool {
+	deadline := time.Now().Add(max)
+	for time.Now().Before(deadline) {
+		for _, w := range d.LogSince(from) {
+			if w.Failed != "" {
+				continue
+			}
+			for i, k := range w.Kinds {
+				if k == "INSERT interfaces" && (i >= len(w.Errors) || w.Errors[i] == 0) {
+					d.WaitQuiet(time.Second)
+					return true
+				}
+			}
+		}
+		time.Sleep(2 * time.Millisecond)
+	}
+	return false
+}
+
 func (d *P4d) MaxInflight() int64 { return d.maxInfl.Swap(0) }
 func (d *P4d) Streams() int {
 	d.mu.Lock()
